@@ -154,6 +154,10 @@ func (m *ListModel) String() string {
 // Kinds of stacks, in a fixed order.
 var Kinds = []string{"AND", "OR", "NOT", "LIST", "BASIC"}
 
+// LeftErrStart: stacks made by ListCfg.Build start with a recorded error (set per case by the driver hook; single-goroutine
+// monitors only).
+var LeftErrStart bool
+
 // CapSpell selects how "no capacity" is spelled by NewStack (set per case by the driver hook).
 var CapSpell int
 var capSpellN int
@@ -221,6 +225,9 @@ func (c ListCfg) Build() (stackage.Stack, *ListModel) {
 	}
 	if c.Fwd {
 		s.SetForwardIndices(true)
+	}
+	if LeftErrStart {
+		s.SetErr(errPolicyRejects) // an error some earlier call left behind: says nothing about content or capacity
 	}
 	m := &ListModel{Cap: c.Cap, Fifo: c.Fifo, Neg: c.Neg, Fwd: c.Fwd}
 	if m.Cap < 0 {
